@@ -63,6 +63,30 @@ func runMutant(repo, verif string, m Mutant, all []*Contract, solver *Solver) mu
 		return res
 	}
 	mutated := strings.Replace(src, m.Old, m.New, 1)
+	// effect obligations: load the whole module with the mutation and run goeff
+	isEff := false
+	for _, e := range m.Expect {
+		if strings.Contains(e, "/effect:") || strings.Contains(e, "/registration@") {
+			isEff = true
+		}
+	}
+	if isEff {
+		ov := fragOverlayWith(repo, all, nil, map[string][]byte{path: []byte(mutated)})
+		eng, err := loadEngine(repo, verif, []string{"github.com/arnodel/golua/..."}, "verif", ov)
+		if err != nil {
+			res.err = "mutant does not load: " + err.Error()
+			return res
+		}
+		for _, eo := range runEffects(eng, m.Prop) {
+			for _, e := range m.Expect {
+				if (eo.Name == e || strings.HasPrefix(eo.Name, e)) && !eo.OK {
+					res.killed, res.by, res.status = true, eo.Name, eo.Witness
+					return res
+				}
+			}
+		}
+		return res
+	}
 	// which functions to verify
 	var keys []string
 	pkgs := map[string]bool{}
